@@ -23,7 +23,7 @@ RULE = ("n = 1..12, ASYMMETRIC non-negative flow / distance matrices: random "
         "non-trivial = distinct (F, D, p) with n >= 3 and F, D both "
         "non-symmetric")
 LEVEL_ASSUMPTIONS = ["oracle: Python big-int double sum"]
-REQUIRED = {"size_window_instances": 10, "tag[almost-symmetric]": 20, "evaluations": 3000, "dtype_edge_instances": 100,
+REQUIRED = {"shipped_qaplib_instances": 50, "size_window_instances": 10, "tag[almost-symmetric]": 20, "evaluations": 3000, "dtype_edge_instances": 100,
             "value_equals_upper_bound": 50, "text_instances": 100,
             "instances_all_perms": 30}
 
@@ -259,9 +259,63 @@ def wrap_text(rng, n, F, D):
     return lines
 
 
+def shipped(ctx, part, parts):
+    """Shipped QAPLIB files: size and both matrices as the file lists them
+    (read by four lines of my own), a few objective values on top."""
+    import os
+    import re
+
+    from moptipy.spaces.permutations import Permutations
+
+    import moptipyapps.qap.qaplib as pkg
+    from moptipyapps.qap.instance import Instance
+    from moptipyapps.qap.objective import QAPObjective
+    folder = os.path.dirname(pkg.__file__)
+    names = sorted(f[:-4] for f in os.listdir(folder) if f.endswith(".dat"))
+    for k, name in enumerate(names):
+        if k % parts != part:
+            continue
+        with open(os.path.join(folder, name + ".dat"),
+                  encoding="utf-8") as f:
+            nums = [int(t) for t in re.findall(r"-?\d+", f.read())]
+        n = nums[0]
+        if n > 60 or len(nums) < 1 + 2 * n * n:
+            ctx.count("shipped_qaplib_skipped")
+            continue
+        F = [nums[1 + i * n:1 + (i + 1) * n] for i in range(n)]
+        D = [nums[1 + n * n + i * n:1 + n * n + (i + 1) * n]
+             for i in range(n)]
+        inst = Instance.from_resource(name)
+        case = {"kind": "shipped", "name": name}
+        ctx.case()
+        ctx.count("shipped_qaplib_instances")
+        if inst.n != n or [[int(v) for v in r] for r in inst.flows] != F \
+                or [[int(v) for v in r] for r in inst.distances] != D:
+            ctx.violation("shipped-qaplib-instance-differs-from-file",
+                          f"{name}: n or matrices differ from the file "
+                          f"(flows first)", case)
+            continue
+        obj = QAPObjective(inst)
+        x = Permutations.standard(n).create()
+        for _ in range(3):
+            p = [int(v) for v in ctx.rng.permutation(n)]
+            x[:] = p
+            want = sum(F[i][j] * D[p[i]][p[j]] for i in range(n)
+                       for j in range(n))
+            v = obj.evaluate(x)
+            ctx.count("shipped_qaplib_evaluations")
+            if v != want or not obj.lower_bound() <= v <= obj.upper_bound():
+                ctx.violation("shipped-qaplib-value",
+                              f"{name}: objective {v}, flow-distance sum "
+                              f"{want}, bounds [{obj.lower_bound()}, "
+                              f"{obj.upper_bound()}]", case)
+                break
+
+
 def run_shard(ctx, args):
     from moptipyapps.qap.instance import Instance
     rng = ctx.rng
+    shipped(ctx, ctx.shard_idx % 4, 4)
     for it in range(args["n"]):
         n = int(rng.choice([1, 2, 2, 3, 3, 4, 4, 5, 6, 7, 9, 12]))
         if it % 40 == 11:
@@ -330,6 +384,9 @@ def run_shard(ctx, args):
 
 def replay(ctx, case):
     from moptipyapps.qap.instance import Instance
+    if case["kind"] == "shipped":
+        shipped(ctx, 0, 1)
+        return
     F, D = case["F"], case["D"]
     if case["kind"] == "text":
         inst = Instance.from_qaplib_stream(iter(case["lines"]))
